@@ -8,7 +8,7 @@ TB_ALGEBRA = [
     "L-SUBTLE: Choice is a bool, CtOption is (value, is_some)",
     "L-STD: vstd specifications of Vec/slice/Option/Result; no allocation exceeds isize::MAX bytes",
     "H-HASH: hash_to_curve / hash_to_scalar are uninterpreted functions of (message, tag)",
-    "extractor rules E1..E11 (DESIGN.md 2.2) preserve the meaning of the extracted functions",
+    "extractor rules E0..E18 (DESIGN.md 2.2) preserve the meaning of the extracted functions",
 ]
 
 X_NONID = "X-NONID (explicit hypothesis of the harness): H(m, dst) is not the identity point for the messages at hand"
